@@ -58,6 +58,7 @@ FLOORS = {'completed': 0.3, 'prog:phi:loop': 50, 'prog:phi:branch': 50,
           'alias-pair:iteration-enumerate:names': 10}
 
 N_INPUTS = 5
+MAXTASKS = 6          # recycle workers: fpy2's per-process caches grow with every loaded module
 CHECKED = ('TypeInfer', 'ArraySizeInfer', 'ValueClassInfer', 'PartialEval', 'DefineUse', 'Alias')
 NT_ROUTES = ('indexing', 'slicing', 'construction', 'tuple-packing', 'iteration', 'comprehension', 'tuple-unpack', 'element-store',
              'projection', 'if-expr')
